@@ -23,6 +23,10 @@ type Deadline struct {
 
 	// +checklocks:m
 	err error
+
+	// final is set once the owner is closed: the deadline then stays expired.
+	// +checklocks:m
+	final bool
 }
 
 // Done returns a channel. The Deadline will send an error on the channel
@@ -59,6 +63,15 @@ func (d *Deadline) Err() error {
 	return d.err
 }
 
+// finish expires the deadline for good with err. Later calls to SetDeadline
+// return io.EOF and leave it expired.
+func (d *Deadline) finish(err error) {
+	d.m.Lock()
+	d.final = true
+	d.m.Unlock()
+	d.Cancel(err)
+}
+
 func (d *Deadline) timeout() {
 	d.Cancel(os.ErrDeadlineExceeded)
 }
@@ -70,6 +83,12 @@ func (d *Deadline) timeout() {
 func (d *Deadline) SetDeadline(t time.Time) error {
 	d.m.Lock()
 	defer d.m.Unlock()
+
+	// A SetDeadline that raced with the owner's Close must not un-expire the
+	// deadline: calls blocked on the closed owner would never be released.
+	if d.final {
+		return io.EOF
+	}
 
 	if !d.timer.Stop() {
 		select {
@@ -226,7 +245,7 @@ func (d *DeadlineChan[T]) Close() error {
 	}
 	d.closed.Store(true)
 	verifYield("DeadlineChan.Close.flagged")
-	d.deadline.Cancel(io.EOF)
+	d.deadline.finish(io.EOF)
 	return nil
 }
 
